@@ -859,6 +859,9 @@ func main() {
 					// the native thread structure can differ from the symbolic one (symbolic-only stubs);
 					// a witness may also be replayed with the goroutines running freely
 					v.Sched = nil
+					if first, rerr := os.ReadFile(strings.TrimSuffix(path, ".json") + ".native.log"); rerr == nil {
+						os.WriteFile(strings.TrimSuffix(path, ".json")+".scheduled.native.log", first, 0o644)
+					}
 					writeReplay(path, prop, h, v, *flagTier)
 					ok, out = replayWitness(repo, verif, dirFiles, h, path, lab, hr.ReachObserve[lab], knownLabels)
 				}
